@@ -36,6 +36,8 @@ def py_expr(n):
 		return ('listlit', [py_expr(x) for x in n.elts])
 	if isinstance(n, ast.ListComp) and len(n.generators) == 1 and isinstance(n.generators[0].target, ast.Name) and len(n.generators[0].ifs) <= 1 and not n.generators[0].is_async:
 		g = n.generators[0]
+		if isinstance(g.iter, ast.Call) and isinstance(g.iter.func, ast.Name) and g.iter.func.id == 'range':
+			return ('rangecomp', py_expr(n.elt), g.target.id, [py_expr(a) for a in g.iter.args], py_expr(g.ifs[0]) if g.ifs else None)
 		return ('listcomp', py_expr(n.elt), g.target.id, py_expr(g.iter), py_expr(g.ifs[0]) if g.ifs else None)
 	if isinstance(n, ast.Compare):
 		items = [py_expr(n.left)]
@@ -356,13 +358,20 @@ class CppParser:
 			start = self.expr()
 			self.eat(';')
 			cond = self.expr()
+			while self.peek() == ',':
+				# C++ comma operator: the left operand is evaluated and discarded
+				self.eat()
+				cond = ('comma', cond, self.expr())
 			self.eat(';')
 			if self.eat() != name:
 				raise Unsupported('for increment')
 			op = self.eat()
-			if op not in ('+=', '-='):
+			if op in ('++', '--'):
+				step = ('aug', op[0], name, ('int', 1))
+			elif op in ('+=', '-='):
+				step = ('aug', op[:-1], name, self.expr())
+			else:
 				raise Unsupported('for increment operator')
-			step = ('aug', op[:-1], name, self.expr())
 			self.eat(')')
 			return ('for', name, start, cond, step, self.block())
 		if t == 'return':
